@@ -147,7 +147,9 @@ class C16(Check):
                 "Pox.C16.ip6_rejects_witnesses", "Pox.C16.eth_loose12_rejected", "Pox.C16.eth_long_group_defect",
                 "Pox.C16.eth_int_leniency_defect", "Pox.C16.cidr_leniency_defect",
                 "Pox.C16.ip6_parse_spec", "Pox.C16.ip6_unsupported_witnesses", "Pox.C16.ip4_parse_spec", "Pox.C16.classful_inference",
-                "Pox.C16.hash_consistent", "Pox.C16.eth_parse_spec", "Pox.C16.eth_seq", "Pox.C16.eth_seq_length_defect"]
+                "Pox.C16.hash_consistent", "Pox.C16.eth_parse_spec", "Pox.C16.eth_seq", "Pox.C16.eth_seq_length_defect",
+                "Pox.C16.ip6_strict_iff", "Pox.C16.ip6_strict_roundtrip", "Pox.C16.eth_strict_iff", "Pox.C16.eth_seq_strict_iff",
+                "Pox.C16.cidr_strict", "Pox.C16.cidr6_strict"]
     anchors = [("pox/lib/addresses.py", "_compare_helper"), ("pox/lib/addresses.py", "_AddrBase.__eq__"), ("pox/lib/addresses.py", "_AddrBase.__ne__"),
                ("pox/lib/addresses.py", "_AddrBase.__lt__"), ("pox/lib/addresses.py", "_AddrBase.__gt__"), ("pox/lib/addresses.py", "_AddrBase.__le__"),
                ("pox/lib/addresses.py", "_AddrBase.__ge__"), ("pox/lib/addresses.py", "_AddrBase.__delattr__"),
